@@ -144,6 +144,19 @@ package environment
 //@   [C08 C09] loop 3 invariant len(filteredWeights) > 0 ==> #i >= 0 && filteredWeights[len(filteredWeights) - 1] <= allWeights[#i]
 //@   [C08 C09] loop 4 invariant #i >= -1 && awaitedAt <= #i && tasksAt <= #i && sortedW(filteredWeights) && fresh(filteredWeights)
 
+// C09 / C08 (only the hooks that failed are reported; each hook task is collected once): when the hooks of a moment cannot
+// be triggered, the goroutine that collects their outcomes is told to stop before runTasksAsHooks returns - left running
+// it keeps taking the termination events of the hooks of LATER moments from the environment's event channel, and those
+// hooks, healthy or not, are then reported as timed out (a critical one cancels its transition)
+//@ func (env *Environment) runTasksAsHooks(hooksToTrigger task.Tasks) (errorMap map[*task.Task]error)
+//@   property C09 C08
+//@   ghostvar trigErr bool = false
+//@   ghostvar stopped bool = false
+//@   on aftercall field.Environment.hookHandlerF : trigErr = result != nil
+//@   on call builtin.close : stopped = true
+//@   loop 2 invariant !trigErr || stopped
+//@   ensures trigErr ==> stopped
+
 // C09 ("several hooks failing at the same point are reported together without harming the core"): the goroutine that
 // collects the outcomes of the task hooks of one moment stops a hook's timeout timer only if it has just found that timer
 // in the timers map. An entry is gone once the hook timed out (or was already collected); the termination event of such
